@@ -453,8 +453,13 @@ func c14Exec(g *c14Rig, c c14Call) (stream bool) {
 		return runStreamCall(base, g.cc, method, c.Tag, fmt.Sprintf("fail:%d:%d", c.Cut, 3+c.NSend), "sendall", c.NSend, nil).OpenErr == ""
 	case "early":
 		// the handler returns at once; the caller keeps sending: messages arrive before or after the
-		// server has forgotten the stream (then it answers with a reset)
-		return runStreamCall(base, g.cc, method, c.Tag, "early:0", "sendall", c.NSend+2, nil).OpenErr == ""
+		// server has forgotten the stream (then it answers with a reset). Every other call sends EMPTY
+		// messages (zero-length encoding): a late empty message is a message, not an open.
+		var payload func(int) []byte
+		if c.Cut%2 == 1 {
+			payload = func(int) []byte { return nil }
+		}
+		return runStreamCall(base, g.cc, method, c.Tag, "early:0", "sendall", c.NSend+2, payload).OpenErr == ""
 	case "writefail":
 		return runStreamCall(base, g.cc, method, c.Tag, "echo", "sendall", c.NSend, nil).OpenErr == ""
 	case "reset":
